@@ -60,6 +60,8 @@ def _case(draw):
         # names that are prefixes / longer variants of each other (s1, s10, s100 ...), so that name widths differ between the rows of a
         # stage and the parent's tables
         "names": draw(st.sampled_from([None, None, "prefix", "prefix", "case"])),
+        # the control treatment's name: the generator's default sorts before every treatment name; others sort after or between them
+        "control_name": draw(st.sampled_from([None, None, "zz_vehicle", "t05", "DMSO", "t"])),
         "random_split": draw(st.integers(0, 3)) == 0,
     }
 
@@ -114,6 +116,9 @@ def check_case(case):
         off = case["seed"] % len(pools)
         ren = lambda x: x if x == sc["control"] else x[0] + pools[(int(x[1:]) + off) % len(pools)] + ("" if int(x[1:]) < len(pools) else x[1:])
         sc = dict(sc, rows=[dict(r, s=ren(r["s"]), t=[ren(t) for t in r["t"]]) for r in sc["rows"]])
+    if case.get("control_name"):
+        old_ctl, new_ctl = sc["control"], case["control_name"]
+        sc = dict(sc, control=new_ctl, rows=[dict(r, t=[new_ctl if t == old_ctl else t for t in r["t"]]) for r in sc["rows"]])
     parent = S.build_screen(sc)
     pf_s, pf_t = _functions(parent)
     p_tm, p_sm = parent.treatment_mapping, parent.sample_mapping
